@@ -1,6 +1,8 @@
 import Mimium.Model.Migration
 import Mimium.Props.C08
 import Mimium.Props.C05
+import Mimium.Props.C06
+import Mimium.Proofs.LiveCodingVoice
 /-!
 # C07 — hot swap after an edit preserves the state of untouched signal paths
 
@@ -156,3 +158,82 @@ example :
   exact ⟨hl, hc, canon_conforms _ _ hl hc, canon_conformsS _ _ hl hc⟩
 
 end Mimium.Migration
+
+/-! ## a whole session: the state of an untouched voice survives the swap (when the diff carries it)
+
+`Model/LiveCoding.lean`: `swapState old new st` = `deserialize` (layout published for `new.dsp`) of `vmResume` (published
+skeletons of `old.dsp`, `new.dsp`) of `serialize` (layout published for `old.dsp`) of `st`; `session` = run, swap, run ….
+A VOICE is a named call site of `dsp` (`let c_i = f_i(const_i)` in the generated programs; any position of a child cell in
+the published layout here).  It is UNTOUCHED by an edit when the new program publishes the same labelled layout
+`⟨self, cells⟩` for it (same callee, same callees of the callee), possibly at another site `sj` and at another offset. -/
+namespace Mimium.LiveCoding
+open Mimium.Core Mimium.StateTree Mimium.FlatTree Mimium.Publish Mimium.Migration
+
+/-- **`swapState` keeps the words of a carried voice.**  If the plan the runtimes apply for the two published skeletons
+carries the voice's word range (`carriesRange`, the test behind `carriesChild`), the hot swap of the old program in ANY
+conforming state `st` succeeds in the model, the new `dsp` tree is canonical for the new layout, and the voice's instance
+in it (child `sj`) has exactly the flat words the voice's instance (child `si`) had before the swap -/
+theorem C07_swapState_carried_voice (Pold Pnew : Prog) (lo ln : LNode) (preO postO preN postN : List LCell) (si sj : Nat)
+    (self : Option Shape) (cells : List LCell)
+    (hpo : publishFn Pold Pold.dsp = some lo) (hpn : publishFn Pnew Pnew.dsp = some ln)
+    (hs : SitesUnique Pnew) (hd : SitesOk Pnew.dsp.body)
+    (hco : lo.cells = preO ++ .child si self cells :: postO) (hcn : ln.cells = preN ++ .child sj self cells :: postN)
+    (st : SNode) (hconf : Conforms lo st)
+    (hcar : carriesRange (planPatches (publishedSk lo) (publishedSk ln)) (selfSize lo.self + sizeCells preO)
+      (selfSize ln.self + sizeCells preN) (LNode.size ⟨self, cells⟩) = true) :
+    ∃ st', swapState Pold Pnew st = some st' ∧ Canon ln st' ∧
+      serialize ⟨self, cells⟩ (st'.childAt sj) = serialize ⟨self, cells⟩ (st.childAt si) := by
+  have hln := C05_publish_ok Pnew.fns.length Pnew Pnew.dsp ln hs hd hpn
+  obtain ⟨ws, h1, _, h3, h4⟩ := swapWords_carried_child lo ln hln preO postO preN postN si sj self cells hco hcn st hconf hcar
+  exact ⟨deserialize ln ws, by simp [swapState, hpo, hpn, h1], h3, h4⟩
+
+/-- **a session with an edit: the untouched voice continues from exactly its pre-swap state.**
+The old program runs `n` samples (outputs `o1`, machine `m`), then the edit `Pnew` is swapped in.  Let a voice have the
+same labelled layout in both published layouts and let the plan carry its word range.  Then the session continues, for
+EVERY number `k` of further samples and every input stream, exactly like the NEW program started on the machine in which
+the voice's instance IS the tree it was in the old program just before the swap (`m.root.childAt si`, transplanted to
+site `sj`), everything else as migrated — all output channels, in particular the one observing the voice.
+(`Pnew` in the class of C05's evaluator theorems; `hconf`, `hvoice`: the old `dsp` state conforms to its layout, the
+voice's `self` values have their declared shapes — typing facts.)
+PARTIAL with respect to the statement "the samples of the voice's channel equal those of the uninterrupted run of that
+voice in the OLD program": missing is the lemma that the value and state effect of `call f [const]` are the same in both
+programs and at both store positions (`eval` depends on the program only through the functions reachable from `f` and on
+the store only through the globals and the argument: invariance of `Core.eval` under a shift of store locations and
+under a change of the rest of the program); with it the run on the right-hand side restricted to the voice's channel is
+the old run's. -/
+theorem C07_session_untouched_voice_partial (fuel : Nat) (sr : UInt64) (Pold Pnew : Prog) (lo ln : LNode)
+    (preO postO preN postN : List LCell) (si sj : Nat) (self : Option Shape) (cells : List LCell)
+    (inputs : Nat → List UInt64) (n : Nat) (m0 mn m : Machine) (o1 : List (List UInt64))
+    (hpo : publishFn Pold Pold.dsp = some lo) (hpn : publishFn Pnew Pnew.dsp = some ln)
+    (harms : noStateInArms Pnew Pnew.dsp.body = true) (hs : SitesUnique Pnew) (hd : SitesOk Pnew.dsp.body)
+    (hco : lo.cells = preO ++ .child si self cells :: postO) (hcn : ln.cells = preN ++ .child sj self cells :: postN)
+    (hcar : carriesRange (planPatches (publishedSk lo) (publishedSk ln)) (selfSize lo.self + sizeCells preO)
+      (selfSize ln.self + sizeCells preN) (LNode.size ⟨self, cells⟩) = true)
+    (hinit : Machine.init fuel Pold sr = .ok m0) (hinitn : Machine.init fuel Pnew sr = .ok mn)
+    (hpre : prefixRun fuel Pold sr inputs n m0 = some (o1, m))
+    (hconf : Conforms lo m.root) (hvoice : ConformsS ⟨self, cells⟩ (m.root.childAt si)) :
+    ∃ st', swapState Pold Pnew m.root = some st' ∧
+      serialize ⟨self, cells⟩ (st'.childAt sj) = serialize ⟨self, cells⟩ (m.root.childAt si) ∧
+      ∀ k, session fuel sr Pold [(n, Pnew)] inputs (n + k) =
+        (runFrom fuel Pnew sr inputs k ⟨mn.store, st'.setCell sj (.child (m.root.childAt si)), n⟩).map (o1 ++ ·) := by
+  obtain ⟨st', hsw, hcanon, hw⟩ := C07_swapState_carried_voice Pold Pnew lo ln preO postO preN postN si sj self cells
+    hpo hpn hs hd hco hcn m.root hconf hcar
+  refine ⟨st', hsw, hw, fun k => ?_⟩
+  have hln := C05_publish_ok Pnew.fns.length Pnew Pnew.dsp ln hs hd hpn
+  obtain ⟨hself, _, hcov⟩ := C05_publishFn_visits Pnew.fns.length Pnew Pnew.dsp ln harms hpn
+  have htm : m.t = n := by
+    rw [prefixRun_t fuel Pold sr inputs n m0 o1 m hpre, (init_t fuel Pold sr m0 hinit).1]; omega
+  cases k with
+  | zero =>
+    have := sessionFrom_prefix fuel sr [(n, Pnew)] inputs Pold 0 n m0 (by simp [(init_t fuel Pold sr m0 hinit).1])
+    simp only [session, hinit, this, hpre, sessionFrom, runFrom, Option.map_some, List.append_nil]
+  | succ k =>
+    rw [session_one_swap fuel sr Pold Pnew inputs n k m0 hinit o1 m hpre]
+    have hso : swapOne fuel sr Pold m Pnew = some (Pnew, ⟨mn.store, st', m.t⟩) := by
+      simp [swapOne, hpn, hsw, hinitn]
+    simp only [hso, sessionFrom_nil, htm]
+    congr 1
+    refine C06_agreeing_machines_same_future fuel Pnew sr inputs ln hln hself.symm hcov (k + 1) _ _ ⟨rfl, rfl, ?_⟩
+    exact agree_transplant ln hln preN postN sj self cells hcn st' _ (canon_conformsS ln st' hln hcanon) hvoice hw
+
+end Mimium.LiveCoding
